@@ -83,7 +83,7 @@ let conform (tn : tnode) (c : cfg) (g : int) (events : string list) : string =
       (match out with
        | RetN (t', ok') ->
            if ok <> ok' then fail (Printf.sprintf "g%d next ok differs" gi)
-           else if not (ok && j < nk && unl.(j)) && not (zeq t t') then fail (Printf.sprintf "g%d next time %s model %s" gi (zs t) (zs t'))
+           else if not (ok && j < nk && unl.(j) && zeq t' now) && not (zeq t t') then fail (Printf.sprintf "g%d next time %s model %s" gi (zs t) (zs t'))
        | Goto (N1 (tx, _)) -> if ok || not (zeq t tx) then fail (Printf.sprintf "g%d parked in N1 but leaf said %s" gi (zs t))
        | Goto PIdle -> if ok then fail (Printf.sprintf "g%d retries although the leaf gave a token" gi)
        | _ -> fail "unexpected outcome") in
@@ -136,7 +136,7 @@ let conform (tn : tnode) (c : cfg) (g : int) (events : string list) : string =
                   apply gi (sec_next1 fuel now !st tx k) (fun _ out ->
                     (* the Next on the new head follows in the log *)
                     (match out with
-                     | RetN (t, ok) -> expect.(gi) <- [("N", j, if ok && j < nk && unl.(j) then "" else zs t ^ ":" ^ field_of_bool ok)]
+                     | RetN (t, ok) -> expect.(gi) <- [("N", j, if ok && j < nk && unl.(j) && zeq t now then "" else zs t ^ ":" ^ field_of_bool ok)]
                      | _ -> expect.(gi) <- [("N", j, "")]);
                     set_out gi out 'N')
               | CInLeft, "L" ->
@@ -209,7 +209,7 @@ let conc_case (tree : string) (explicit : bool) (plan : string) (obs : string) :
                | 'N' :: r ->
                    (match s_next fuel now s with
                     | Ok ((s', t), ok) ->
-                        if ok then (if head_is_unl s' then go s' r toks (nu + 1) fin else go s' r (t :: toks) nu fin)
+                        if ok then (if head_is_unl s' && zeq t now then go s' r toks (nu + 1) fin else go s' r (t :: toks) nu fin)
                         else go s' r toks nu (Some t)
                     | _ -> "next-panics")
                | _ :: r ->
@@ -227,7 +227,7 @@ let conc_case (tree : string) (explicit : bool) (plan : string) (obs : string) :
       | 'N' :: r ->
           let u = from_window now its in
           let ((its', t), ok) = abs_next now fin0 its in
-          if ok then (if u then go its' r toks (nu + 1) fin else go its' r (t :: toks) nu fin)
+          if ok then (if u && zeq t now then go its' r toks (nu + 1) fin else go its' r (t :: toks) nu fin)
           else go its' r toks nu (Some t)
       | _ :: r -> go its r toks nu fin in
     go its0 rr [] 0 None in
@@ -298,12 +298,12 @@ let conc_case (tree : string) (explicit : bool) (plan : string) (obs : string) :
             let ((its', t'), ok') = abs_next now fin0 !its in
             if not ok' then fail "token-handed-out-after-exhaustion"
             else if u <> wu then fail "token-from-wrong-kind-of-part"
-            else if not u && not (zeq t t') then fail (Printf.sprintf "token-time got %s want %s" (zs t) (zs t'));
+            else if not (u && zeq t' now) && not (zeq t t') then fail (Printf.sprintf "token-time got %s want %s" (zs t) (zs t'));
             its := its';
             note_change ();
             if in_left then fail "token-consumed-by-Left"
           end;
-          if not in_left then pend.(gi) <- PN (Some (t, ok, ok && j < Array.length wr && wr.(j).w_unl))
+          if not in_left then pend.(gi) <- PN (Some (t, ok, ok && j < Array.length wr && wr.(j).w_unl && zlt past t))
       | _ -> ()) events;
   let nparts = List.length fl in
   let v =
